@@ -124,7 +124,19 @@ theorem stmt_main_sem : ∀ f : Nat,
         rw [T2_chain (exprT2_of_C02 env) st l1 l2 op2 e hcarve] at hcomp
         obtain ⟨σIL', hx, hinv'⟩ := chain_correct hE henv hc hcomp hwf (WFHyp_of_static hwfe) hinv hex
         exact ⟨eff, hcomp, σIL', hx, hx, hinv'⟩
-      | exprstmt e => simp [WFStmt] at hwf
+      | exprstmt e =>
+        -- a bare pure value: both lowerings compile it (they fail together, `stmt_state_sem`) and emit nothing;
+        -- C evaluates and discards it
+        obtain ⟨⟨ef, stf⟩, hFs, hst⟩ := (stmt_state_sem hms hc hinv.inv env _ st hcarve hwf hwfe).ok_left hcomp
+        simp only [TStRel] at hst; subst hst
+        have h1 := compileStmt_bare (s := .exprstmt e) rfl hcomp
+        have h2 := compileStmt_bare (s := .exprstmt e) rfl hFs
+        subst h1; subst h2
+        simp only [execC] at hex
+        obtain ⟨v, _, hex1⟩ := bind_ok hex
+        simp only [Except.ok.injEq] at hex1
+        subst hex1
+        exact ⟨_, hFs, _, ExecIL_empty, ExecIL_empty, hinv⟩
       | ret e => simp [WFStmt] at hwf
       | vcall n x a p => simp [WFStmt] at hwf
       | ite cnd t e =>
@@ -290,9 +302,19 @@ theorem stmt_main_sem : ∀ f : Nat,
         simp only [exprsOfList, List.all_append, Bool.and_eq_true] at hwfe
         obtain ⟨ef, hef, σIL1, hx1, hx1F, hinv1⟩ := ihE s st e st1 σC σIL σ1 he hcarve.1 hwf.1 hwfe.1 hinv h1
         obtain ⟨esf, hesf, σIL2, hx2, hx2F, hinv2⟩ := ihS ss st1 es st2 σ1 σIL1 σC' hes hcarve.2 hwf.2 hwfe.2 hinv1 h2
-        refine ⟨ef :: esf, ?_, σIL2, ExecSeqIL_cons hx1 hx2, ExecSeqIL_cons hx1F hx2F, hinv2⟩
-        rw [compileStmts, hef]
-        simp only [bind, Except.bind, hesf]
+        refine ⟨consEff s ef esf, ?_, ?_⟩
+        · rw [compileStmts, hef]
+          simp only [bind, Except.bind, hesf]
+        · cases hb : isBare s
+          · rw [consEff_eff hb, consEff_eff hb]
+            exact ⟨σIL2, ExecSeqIL_cons hx1 hx2, ExecSeqIL_cons hx1F hx2F, hinv2⟩
+          · -- a bare value statement is listed by neither lowering; its (empty) effect does not move the IL state
+            rw [consEff_bare hb, consEff_bare hb]
+            have h0 := compileStmt_bare hb he
+            subst h0
+            have := ExecIL_det hx1 ExecIL_empty
+            subst this
+            exact ⟨σIL2, hx2, hx2F, hinv2⟩
     · intro v cond body st bs bsf st' cc fc stepE loopBody loopBodyF σC σIL σC' hcc hF hcx hcok hbs hbsf hcb hshape hshapeF
         hwfb hwfe hinv hex
       rw [loopC] at hex
@@ -521,6 +543,50 @@ theorem certifiedSemB_correct {ms : MacroSem} (hms : MsOK ms) {prog : List CStmt
   rw [Bare.compileProgH_dropBare _ _ hfree] at hcomp
   exact certifiedSem_correct hms hcert hcomp hloc hsrcs (Bare.ExecCs_dropBare hex)
 
+/-- **End to end, as coded, all states, behaviours with bare PURE value statements** (`siV; EA = RsV + siV; …`, `RsV;`,
+    `uiV;` — QEMU's shortcode starts most behaviours with such "touch the operand" statements; they may stand anywhere:
+    top level, `if`/`else` arms, loop bodies).  Route: the simulation itself accepts the statement —
+    `compileStmt (.exprstmt e)` compiles the value, registers its immediates (`addImms`, the order of first occurrence,
+    exactly what `compileStmtH` does through `compileExprH`: `compileStmtH_eq`) and emits nothing (`compileStmts` does
+    not list it, as `compileStmtsH` does not: `compileStmtsH_eq` is still an equality of effect LISTS); on the C side
+    `execC (.exprstmt e)` evaluates `e` and discards the value.  If `e` is undefined in C for the initial state (an
+    out-of-range shift, a division by zero) the C behaviour is undefined there and the hypothesis `ExecCs ms prog σ0 σC'`
+    fails: nothing is assumed away.  Same hypotheses and conclusion as `certifiedSem_correct` (of which this is the
+    restatement under the certificate's second name: `certifiedSemP_eq`). -/
+theorem certifiedSemP_correct {ms : MacroSem} (hms : MsOK ms) {prog : List CStmt} {eff : ILEffect}
+    (hcert : certifiedSemP prog = true) (hcomp : compileProgH Cfg.asCode prog = .ok eff)
+    {σ0 σC' : MState} (hloc : σ0.locals = []) (hsrcs : ∀ ov ∈ (ctxOf prog).srcs, σ0.written ov = false)
+    (hex : ExecCs ms prog σ0 σC') :
+    ∃ σIL', ExecIL ms eff σ0 σIL' ∧ StRel σC' σIL' :=
+  certifiedSem_correct hms (by rw [← certifiedSemP_eq]; exact hcert) hcomp hloc hsrcs hex
+
+/-- `certifiedSemP_correct` with equal immediates of the final states, for a behaviour that assigns to no immediate -/
+theorem certifiedSemP_correct_imm {ms : MacroSem} (hms : MsOK ms) {prog : List CStmt} {eff : ILEffect}
+    (hcert : certifiedSemP prog = true) (hnoimm : noImmTargets prog = true) (hcomp : compileProgH Cfg.asCode prog = .ok eff)
+    {σ0 σC' : MState} (hloc : σ0.locals = []) (hsrcs : ∀ ov ∈ (ctxOf prog).srcs, σ0.written ov = false)
+    (hex : ExecCs ms prog σ0 σC') :
+    ∃ σIL', ExecIL ms eff σ0 σIL' ∧ StRel σC' σIL' ∧ σC'.imm = σIL'.imm := by
+  obtain ⟨σIL', hx, hrel⟩ := certifiedSemP_correct hms hcert hcomp hloc hsrcs hex
+  exact ⟨σIL', hx, hrel, imm_eq_of_noImmTargets hnoimm hex hx⟩
+
+/-- the C side does evaluate a bare value: where the value is undefined the behaviour is (no final state) -/
+theorem bare_undefined_not_ignored {ms : MacroSem} {e : CExpr} {rest : List CStmt} {σ σ' : MState} {m : Stuck}
+    (hundef : evalC ms σ e = .error m) : ¬ ExecCs ms (.exprstmt e :: rest) σ σ' := by
+  intro h
+  obtain ⟨f, hf⟩ := ExecCs_iff.1 h
+  cases f with
+  | zero => simp [execCs] at hf
+  | succ f =>
+    rw [execCs] at hf
+    obtain ⟨σ1, h1, _⟩ := bind_ok hf
+    cases f with
+    | zero => simp [execC] at h1
+    | succ f =>
+      simp only [execC] at h1
+      obtain ⟨v, hv, _⟩ := bind_ok h1
+      rw [hundef] at hv
+      cases hv
+
 end Sem
 
 /-! ## non-vacuity and witnesses -/
@@ -615,6 +681,88 @@ example : ∃ eff σC' σIL', compileProgH Cfg.asCode j2_jump = .ok eff ∧ Exec
   have htgt : finalLocal "jump_target" (execCs noMacros 5 j2_jump j2_state) = some (.bv 32 0x104) := by decide +kernel
   rw [hC] at himm htgt
   exact ⟨eff, σC', σIL', hcomp, hex, hx, hrel, Option.some.inj himm, hrel.locals _ _ htgt⟩
+
+/-! ### bare pure value statements: the behaviour of `L2_loadri_io` -/
+
+/-- `{ siV; EA = (RsV + siV); RdV = ((int32_t)mem_load_s32(EA)); }` (the shape of the `L2_load*_io` family; the shipped
+    `L2_loadri_io` itself loads unsigned: `l2_loadri_io_shipped` below) -/
+def l2_loadri_io : List CStmt :=
+  [.exprstmt (.imm "s" true),
+   .assign (.var "EA" utT) "=" (.bin "+" (.reg "RsV" .src ⟨true, 32⟩) (.imm "s" true)),
+   .assign (.reg "RdV" .dst ⟨true, 32⟩) "=" (.load true 32 ⟨true, 32⟩)]
+
+/-- the certificate holds for it (kernel-checked), it does contain a bare statement, and `dropBare` does not touch it
+    (the next statement is no assignment to the immediate) -/
+theorem l2_loadri_io_certified : certifiedSemP l2_loadri_io = true := by decide +kernel
+example : hasBare l2_loadri_io = true ∧ dropBare l2_loadri_io = l2_loadri_io := ⟨by decide +kernel, by rfl⟩
+/-- the syntactic certificate does not hold (`EA = RsV + siV` converts a signed value to the unsigned `EA`) -/
+example : certified l2_loadri_io = false := by decide +kernel
+/-- the bare statement is what registers the immediate (first in the prologue), and it yields no effect of its own -/
+example : (ctxOf l2_loadri_io).imms = ["s"] ∧ (exprsOfList l2_loadri_io).length = 3 := by decide +kernel
+
+/-- `{ siV; EA = (RsV + siV); ; RdV = ((size4u_t)mem_load_u32(EA)); }`: the shipped `L2_loadri_io` exactly as
+    `harness/elab.py` delivers it today (with the empty statement of the macro expansion) -/
+def l2_loadri_io_shipped : List CStmt :=
+  [.exprstmt (.imm "s" true),
+   .assign (.var "EA" utT) "=" (.bin "+" (.reg "RsV" .src ⟨true, 32⟩) (.imm "s" true)),
+   .skip ";",
+   .assign (.reg "RdV" .dst ⟨true, 32⟩) "=" (.load false 32 ⟨false, 32⟩)]
+theorem l2_loadri_io_shipped_certified : certifiedSemP l2_loadri_io_shipped = true := by decide +kernel
+
+/-- `siV = 8`, every register `0x1000`, the byte `0x2a` at `0x1008` -/
+def l2_state : MState :=
+  { (default : MState) with imm := fun _ => 8, cur := fun _ => 0x1000, mem := fun a => if a == 0x1008 then 0x2a else 0 }
+
+def finalNew (ov : String) : Except Stuck MState → Option Nat
+  | .ok σ => if σ.written ov then some (σ.new ov) else none
+  | .error _ => none
+
+/-- all hypotheses of `certifiedSemP_correct` hold together for `L2_loadri_io` from `l2_state`; its conclusion follows,
+    and the EMITTED effect writes the loaded word `0x2a` to `Rd` -/
+example : ∃ eff σC' σIL', compileProgH Cfg.asCode l2_loadri_io = .ok eff ∧ ExecCs noMacros l2_loadri_io l2_state σC' ∧
+    ExecIL noMacros eff l2_state σIL' ∧ StRel σC' σIL' ∧ σIL'.written "Rd_op" = true ∧ σIL'.new "Rd_op" = 0x2a := by
+  obtain ⟨eff, hcomp⟩ := isOk_elim (x := compileProgH Cfg.asCode l2_loadri_io) (by decide +kernel)
+  obtain ⟨σC', hC⟩ := isOk_elim (x := execCs noMacros 5 l2_loadri_io l2_state) (by decide +kernel)
+  have hex : ExecCs noMacros l2_loadri_io l2_state σC' := ExecCs_iff.2 ⟨5, hC⟩
+  obtain ⟨σIL', hx, hrel⟩ := Sem.certifiedSemP_correct T3.msOK_trivial l2_loadri_io_certified hcomp rfl (fun _ _ => rfl) hex
+  have hnew : finalNew "Rd_op" (execCs noMacros 5 l2_loadri_io l2_state) = some 0x2a := by decide +kernel
+  rw [hC] at hnew
+  simp only [finalNew] at hnew
+  split at hnew
+  · rename_i hw
+    refine ⟨eff, σC', σIL', hcomp, hex, hx, hrel, ?_, ?_⟩
+    · rw [← hrel.written]; exact hw
+    · rw [← hrel.new]; exact Option.some.inj hnew
+  · cases hnew
+
+/-- a bare statement inside an `if` arm and inside a loop body is accepted as well:
+    `{ int i; for (i = 0; i < 2; i++) { uiV; } if (RsV) { siV; RdV = siV; } else { RsV; } }` -/
+def bare_nested : List CStmt :=
+  [.decl ⟨true, 32⟩ "i" none,
+   .for_ "i" (.cmp "<" (.var "i" utT) (.lit 2 false "")) 0 [.exprstmt (.imm "u" false)],
+   .ite (.reg "RsV" .src ⟨true, 32⟩)
+     [.exprstmt (.imm "s" true), .assign (.reg "RdV" .dst ⟨true, 32⟩) "=" (.imm "s" true)]
+     (some [.exprstmt (.reg "RsV" .src ⟨true, 32⟩)])]
+example : certifiedSemP bare_nested = true ∧ (ctxOf bare_nested).imms = ["u", "s"] := by decide +kernel
+
+/-- a bare value with a side effect is NOT accepted (`i++;`), nor is a bare value whose lowering differs between the
+    code and the repaired lowering (`(uint64_t)RsV;`: outside `CarveESem`) -/
+example : certifiedSemP [.decl ⟨true, 32⟩ "i" none, .exprstmt (.post "i" ⟨true, 32⟩ "++")] = false := by decide +kernel
+example : certifiedSemP [.exprstmt (.cast ⟨false, 64⟩ (.reg "RsV" .src ⟨true, 32⟩))] = false := by decide +kernel
+
+/-- an undefined bare value makes the C behaviour undefined, it is not skipped: `(1 << siV);` with `siV = 40` -/
+example : ∀ σ', ¬ ExecCs noMacros [.exprstmt (.shift "<<" (.lit 1 false "") (.imm "s" true))]
+    { (default : MState) with imm := fun _ => 40 } σ' := by
+  intro σ'
+  obtain ⟨m, hm⟩ : ∃ m, evalC noMacros { (default : MState) with imm := fun _ => 40 }
+      (.shift "<<" (.lit 1 false "") (.imm "s" true)) = .error m := by
+    cases h : evalC noMacros { (default : MState) with imm := fun _ => 40 } (.shift "<<" (.lit 1 false "") (.imm "s" true)) with
+    | error m => exact ⟨m, rfl⟩
+    | ok v =>
+      have : isOk (evalC noMacros { (default : MState) with imm := fun _ => 40 }
+          (.shift "<<" (.lit 1 false "") (.imm "s" true))) = false := by decide +kernel
+      rw [h] at this; cases this
+  exact Sem.bare_undefined_not_ignored hm
 
 /-- non-vacuity of the expression- and statement-level theorems (`sortOK_fixed`, `expr_sem`, `cond_sem`, `decl_sem`,
     `assign_sem`, `store_sem`, `jump_sem`, `stmt_sem_both`): a consistent context, a typed state, and carved,
